@@ -16,7 +16,7 @@ from ..monitors.san import SanMonitor
 from ..monitors.bal import BalMonitor, FallMonitor
 from ..monitors.guards import PeakMonitor
 from ..svm.asm import assemble, AsmError
-from ..svm.vm import VM, Outcome
+from ..svm.vm import FAULT_FLAGS, VM, Outcome
 from . import common
 
 PROPERTY = 'C08'
@@ -105,6 +105,18 @@ def run_shard(spec):
                     break
                 if abrupt:
                     res['nontrivial'].append(runner.case_id(src, n))
+            if ok:
+                # the same under --unchecked: releasing is not a check, the rules hold there too
+                try:
+                    ulines = env.compile_src(src, word=2, stack=diff.GENEROUS_STACK, unchecked=True)
+                    for n in ('2', '7'):
+                        o, _ = judge(res, src, ulines, ['1', n], 2, tag + ' --unchecked')
+                        if o is None:
+                            ok = False
+                            break
+                        runner.count(res, 'unchecked_runs_balanced')
+                except CompilerError as e:
+                    runner.count(res, 'rejected_unchecked')
             if not ok:
                 continue
             # peak-ap twins
@@ -143,6 +155,11 @@ def run_shard(spec):
             o, mons = judge(res, src, lines, args, word, tag)
             if o is None:
                 break
+            if word == 2 and not any(f in FAULT_FLAGS for f in o.flags):
+                ou, _ = judge(res, src, env.compile_src(src, word=word, stack=diff.GENEROUS_STACK, unchecked=True), args, word, tag + ' --unchecked')
+                if ou is None:
+                    break
+                runner.count(res, 'unchecked_runs_balanced')
             st = mons[1].stats
             if mons[3].peak_array_bytes() and (st['break'] or st['continue'] or st['handler'] or st['ret']):
                 res['nontrivial'].append(runner.case_id(src, args))
